@@ -270,6 +270,9 @@ def trace_solve(t):
     last_min = None
     bad = []
     writes_to_args = 0
+    import hashlib
+    hh = hashlib.sha256()
+    nonflag_writes = 0
     first_sweep_seen = False
     late_tt_store_outside_sweep = 0
     for e in rec.events:
@@ -279,7 +282,10 @@ def trace_solve(t):
             continue
         if kind == "w" and tag is not None and tag.startswith("arg:"):
             writes_to_args += 1
+        if kind == "w" and tag != ttag and not (tag or "").endswith(("zeros", "empty")):
+            nonflag_writes += 1   # writes into arrays other than tt / ttsgn / ttgrad (e.g. td)
         if kind == "w" and tag == ttag:
+            hh.update(repr(e[3]).encode() + np.asarray(e[6], dtype=np.float64).tobytes())
             fn = pos[0].co_name
             if fn == "sweep":
                 first_sweep_seen = True
@@ -299,6 +305,7 @@ def trace_solve(t):
     return {"tt": np.array(tt), "grad": np.array(g), "vzero": float(vz), "n_store": n_store,
             "n_bad": n_bad, "n_raise": n_raise, "bad": bad, "writes_to_args": writes_to_args,
             "late_tt_store_outside_sweep": late_tt_store_outside_sweep,
+            "tt_write_hash": hh.hexdigest(), "nonflag_writes": nonflag_writes,
             "strict": [(proxy.position(p)[1:4], tg, idx, shp, why) for p, tg, idx, shp, why in rec.strict[:5]],
             "n_strict": len(rec.strict)}
 
